@@ -96,6 +96,32 @@ func esds(sizeLen int, asc []byte) []byte {
 	return fb("esds", 0, 0, u8(3), sz(len(es)), es)
 }
 
+// esdsLong builds an esds whose descriptors need size fields of more than one
+// base-128 digit: form "min" uses the shortest size field for every
+// descriptor, form "four" always four bytes (leading digits as they fall).
+func esdsLong(form string, asc []byte) []byte {
+	sz := func(n int) []byte {
+		if form == "four" {
+			return u8(0x80|byte(n>>21)&0x7f, 0x80|byte(n>>14)&0x7f, 0x80|byte(n>>7)&0x7f, byte(n)&0x7f)
+		}
+		var out []byte
+		started := false
+		for shift := 21; shift > 0; shift -= 7 {
+			d := byte(n>>uint(shift)) & 0x7f
+			if d != 0 || started {
+				out = append(out, 0x80|d)
+				started = true
+			}
+		}
+		return append(out, byte(n)&0x7f)
+	}
+	dsi := cat(u8(5), sz(len(asc)), asc)
+	dcd := cat(u8(0x40, 0x15), u24(0x000300), u32(128000), u32(96000), dsi)
+	sl := cat(u8(6), sz(1), u8(2))
+	es := cat(u16(1), u8(0), u8(4), sz(len(dcd)), dcd, sl)
+	return fb("esds", 0, 0, u8(3), sz(len(es)), es)
+}
+
 func dataBox(text string) []byte { return bx("data", u32(1), u32(0), []byte(text)) }
 
 var kid1 = seq(16, 0x10)
@@ -336,6 +362,11 @@ func builtBoxes() []Seed {
 	asc := []byte{0x11, 0x90}
 	add("esds", "size1", esds(1, asc))
 	add("esds", "size4", esds(4, []byte{0x2b, 0x11, 0x88, 0x00}))
+	for _, n := range []int{100, 127, 128, 130, 300, 16383, 16384, 20000} {
+		long := cat(asc, seq(n-2, 0x21))
+		add("esds", fmt.Sprintf("dsi%d-min-sizes", n), esdsLong("min", long))
+		add("esds", fmt.Sprintf("dsi%d-four-byte-sizes", n), esdsLong("four", long))
+	}
 	{
 		// other descriptors between DecoderConfigDescriptor and SLConfigDescriptor, and after it
 		dsi := cat(u8(5, 2), asc)
